@@ -23,18 +23,135 @@ def _explored_flag(st):
     return st.sampler().explored
 
 
-def cfg_C01(tier):
+def cfg_C01(tier, scn=None):
     return dict(alphabet=_alpha(('step',), ('resume',)),
                 monitors=[M.mon_exception('C01'), M.mon_partition],
                 R=1 if tier == 'quick' else 2, T=0)
 
 
-CONFIGS = dict(C01=cfg_C01)
+def _alpha_t(tier, every):
+    """step / resume everywhere; toggle at every batch boundary (thorough) or every `every`-th"""
+    def alphabet(st):
+        acts = [('step',), ('resume',)]
+        if tier == 'thorough' or st.depth % every == 0:
+            acts.append(('toggle',))
+        return acts
+    return alphabet
+
+
+def cfg_C02(tier, scn=None):
+    return dict(alphabet=_alpha_t(tier, 4),
+                monitors=[M.mon_exception('C02'), M.mon_estimators],
+                R=1, T=1 if tier == 'quick' else 2)
+
+
+def cfg_C03(tier, scn=None):
+    return dict(alphabet=_alpha_t(tier, 5),
+                monitors=[M.mon_exception('C03'), M.mon_rows],
+                R=1 if tier == 'quick' else 2, T=1)
+
+
+def _alpha_C05(tier):
+    def alphabet(st):
+        acts = [('step',), ('resume',)]
+        if tier == 'thorough' or st.depth == 0 or (st.path and st.path[-1][0] == 'resume'):
+            acts.append(('finish',))
+        if tier == 'thorough' or st.depth % 3 == 0:
+            acts.append(('run2',))
+            acts.append(('tick', 2))
+        if tier == 'thorough':
+            acts.append(('tick', 3))
+        return acts
+    return alphabet
+
+
+def cfg_C05(tier, scn=None):
+    return dict(alphabet=_alpha_C05(tier),
+                monitors=[M.mon_exception('C05'), M.mon_once('C05')],
+                R=1 if tier == 'quick' else 2, T=0)
+
+
+def _loops_C10(st):
+    return [('cap', 'zero'), ('cap', 'below'), ('cap', 'at'), ('tick', 0), ('tick', 1)]
+
+
+def cfg_C10(tier, scn=None):
+    def alphabet(st):
+        acts = [('step',), ('resume',), ('tick', 2)]
+        if tier == 'thorough' or st.depth % 2 == 0:
+            acts += [('run2',), ('tick', 3)]
+        if st.depth == 0 or (st.path and st.path[-1][0] == 'resume' and (
+                tier == 'thorough' or st.depth % 4 == 0)):
+            acts.append(('finish',))
+        return acts
+
+    return dict(alphabet=alphabet, loops=_loops_C10,
+                monitors=[M.mon_exception('C10'), M.mon_calls, M.mon_noop('C10')],
+                R=1, T=0, terminal_alphabet=_terminal_raise)
+
+
+def _terminal_raise(st):
+    """at a terminal state whose targets are still the scenario's: raise n_eff (x1.6) or n_shell"""
+    if not any(a[0] == 'raise' for a in st.path):
+        n_eff, n_shell = st.target
+        return [('raise', int(n_eff * 1.6), n_shell), ('raise', n_eff, 4)]
+    return []
+
+
+def _loops_C11(st):
+    return [('observe',)]
+
+
+def cfg_C11(tier, scn=None):
+    def alphabet(st):
+        acts = [('step',)]
+        if scn is not None and scn['pool_l']:
+            acts += [('sched', 'rev'), ('sched', 'rot1')]
+            if tier == 'thorough':
+                acts += [('sched', 'rot2'), ('sched', 'perm3'), ('sched', 'perm7')]
+        return acts
+    return dict(alphabet=alphabet, loops=_loops_C11,
+                monitors=[M.mon_exception('C11'), M.mon_pure],
+                R=0, T=0, S=1 if tier == 'quick' else 2)
+
+
+def cfg_C12(tier, scn=None):
+    return dict(alphabet=_alpha_t(tier, 3),
+                monitors=[M.mon_exception('C12'), M.mon_freeze, M.mon_toggle,
+                          M.mon_resume_obs('C12')],
+                R=1, T=2 if tier == 'quick' else 3, terminal_alphabet=_terminal_raise)
+
+
+CONFIGS = dict(C01=cfg_C01, C02=cfg_C02, C03=cfg_C03, C05=cfg_C05, C10=cfg_C10, C11=cfg_C11,
+               C12=cfg_C12)
 
 SCENARIOS = dict(
     C01=dict(quick=['gauss', 'two', 'wrap_net', 'half'],
              thorough=['gauss', 'gauss_net', 'two', 'ring_net', 'half', 'plateau', 'wrap',
                        'wrap_net', 'g3_pool_s', 'two_pool_s', 'b7_update', 'blob_two_obj']),
+    C02=dict(quick=['gauss_d', 'half', 'two', 'b7_update'],
+             thorough=['gauss', 'gauss_d', 'gauss_net', 'two', 'ring_net', 'half', 'plateau',
+                       'wrap_net', 'g3_pool_s', 'b7_update', 'b1', 'blob_f32_inplace']),
+    C03=dict(quick=['blob_float', 'blob_int_vec', 'blob_two_obj', 'blob_array_pool',
+                    'blob_struct_dictfn', 'blob_f32_inplace', 'blob_float_b1', 'blob_two_b2_vec'],
+             thorough=['blob_float', 'blob_int_vec', 'blob_two_obj', 'blob_array_pool',
+                       'blob_struct_dictfn', 'blob_f32_inplace', 'blob_float_b1', 'blob_array_b1',
+                       'blob_two_b2_vec', 'blob_struct_b1', 'vec_inplace', 'obj_array_vec',
+                       'dictfn_vec_net', 'pool_l3', 'gauss', 'wrap_net']),
+    C05=dict(quick=['gauss', 'gauss_net', 'wrap_net', 'blob_two_obj'],
+             thorough=['gauss', 'gauss_d', 'gauss_net', 'two', 'ring_net', 'half', 'wrap',
+                       'wrap_net', 'g3_pool_s', 'blob_float', 'blob_int_vec', 'blob_two_obj',
+                       'blob_array_pool', 'blob_struct_dictfn', 'blob_f32_inplace',
+                       'dictfn_vec_net', 'b7_update']),
+    C10=dict(quick=['gauss', 'b7_update', 'half'],
+             thorough=['gauss', 'gauss_d', 'b7_update', 'half', 'b1', 'two', 'wrap_net',
+                       'blob_int_vec', 'pool_l3']),
+    C11=dict(quick=['gauss', 'blob_array_pool', 'wrap_net'],
+             thorough=['gauss', 'gauss_net', 'blob_array_pool', 'pool_l3', 'wrap_net', 'two',
+                       'nofile', 'blob_two_obj']),
+    C12=dict(quick=['gauss', 'gauss_d', 'b7_update'],
+             thorough=['gauss', 'gauss_d', 'b7_update', 'b1', 'two', 'half', 'wrap_net',
+                       'blob_float', 'blob_two_obj']),
 )
 
 LEVEL = 'model_checking'
@@ -46,7 +163,7 @@ def _job(prop, tier, scn_dict):
     seed = d.pop('seed')
     scn = scen.Scenario(name, **d)
     scn['seed'] = seed
-    cfg = CONFIGS[prop](tier)
+    cfg = CONFIGS[prop](tier, scn)
     return smc.explore(scn, cfg['alphabet'], cfg['monitors'], R=cfg.get('R', 1), T=cfg.get('T', 0),
                        S=cfg.get('S', 0), loops=cfg.get('loops'),
                        terminal_alphabet=cfg.get('terminal_alphabet'),
@@ -69,13 +186,217 @@ def _det_job(scn_dict, depth, variant):
     raise core.Inconclusive('detrun failed: ' + p.stderr[-2000:])
 
 
+def _mk(scn_dict, **over):
+    d = dict(scn_dict)
+    name = d.pop('name')
+    seed = d.pop('seed')
+    d.update(over)
+    scn = scen.Scenario(name, **d)
+    scn['seed'] = seed
+    return scn
+
+
+def _path_obs(scn, path, every=True):
+    """replays a path on a fresh sampler; returns per-depth observation digests (None where no
+    sample is stored yet) and the final summary"""
+    eng = smc.Engine(scn, [])
+    try:
+        st = eng.initial()
+        obs = []
+        summ = None
+        for act in path:
+            new, ctx = eng.apply(st, tuple(act))
+            if new is None:
+                obs.append('EXC:{}'.format(ctx['exc']))
+                break
+            s = ctx['post']
+            if act[0] in ('step', 'finish', 'run2', 'resume', 'toggle', 'runarg') and len(
+                    s.bounds) and int(sum(len(x) for x in s.log_l)) > 0:
+                try:
+                    d, summ = smc.observation(s)
+                except Exception as e:
+                    d = 'EXC:{}:{}'.format(type(e).__name__, str(e)[:80])
+                obs.append(d)
+            else:
+                obs.append(None)
+            st = new
+            if new.terminal:
+                break
+        return obs, summ, st.skey, st.fkey
+    finally:
+        eng.close()
+
+
+def _pair_job(scn_dict, over_a, over_b, label, depth):
+    """C11(b): lock-step product run of two configurations that must be indistinguishable"""
+    a = _mk(scn_dict, **over_a)
+    b = _mk(scn_dict, **over_b)
+    path = [('step',)] * depth
+    oa, sa, _, _ = _path_obs(a, path)
+    ob, sb, _, _ = _path_obs(b, path)
+    out = []
+    if oa != ob:
+        k = next((i for i in range(min(len(oa), len(ob))) if oa[i] != ob[i]), min(len(oa), len(ob)))
+        out.append(Violation('C11', 'pair:' + label, 'configurations {} and {} of scenario {} give '
+                             'different results from depth {} on ({} vs {})'.format(
+                                 over_a, over_b, scn_dict['name'], k, sa, sb),
+                             dict(kind='pair', scenario=scn_dict, over_a=over_a, over_b=over_b,
+                                  label=label, depth=depth)))
+    return dict(violations=out, depth=len(oa), label=label, scenario=scn_dict['name'],
+                final=sa)
+
+
+def _mp_job(scn_dict, size, depth):
+    """C11(d): conformance of FakePool to real multiprocessing pools (free running): the final
+    observation of a run with Sampler(pool=size) equals the serial one"""
+    import numpy as np
+    import functools
+    from nautilus import Sampler
+    scn = _mk(scn_dict, pool_l=0, pool_s=0, file=False)
+    serial = scn.build()
+    scen.LOG['on'] = False
+    try:
+        A = scn.run_args()
+        serial.run(**A)
+        d0, s0 = smc.observation(serial)
+        kw = scn.sampler_kwargs()
+        kw['pool'] = size
+        kw['n_dim'] = scn['n_dim']
+        par = Sampler(scen.prior_identity, functools.partial(scen.likelihood_array, scn['like'],
+                                                             scn['blob']), **kw)
+        try:
+            par.run(**A)
+            d1, s1 = smc.observation(par)
+        finally:
+            for pl in (par.pool_l, par.pool_s):
+                if pl is not None:
+                    pl.pool.terminate()
+    finally:
+        scen.LOG['on'] = True
+    out = []
+    if d0 != d1:
+        out.append(Violation('C11', 'pool:multiprocessing-size-{}'.format(size),
+                             'a run with a real multiprocessing pool of size {} differs from the '
+                             'serial run: {} vs {}'.format(size, s1, s0),
+                             dict(kind='mp', scenario=scn_dict, size=size)))
+    return dict(violations=out, label='mp{}'.format(size), scenario=scn_dict['name'], final=s1,
+                depth=0)
+
+
+def _three_ways_job(scn_dict):
+    """C12: the three ways of getting discard_exploration on (argument of run(); setter right after
+    exploration ended; setter after a resume) give the same statistics at every later batch."""
+    base = _mk(scn_dict, discard=False)
+    arg = _mk(scn_dict, discard=True)
+    # depth at which exploration ends on the default path
+    eng = smc.Engine(base, [])
+    try:
+        st = eng.initial()
+        k_exp = None
+        for k in range(400):
+            new, ctx = eng.apply(st, ('step',))
+            st = new
+            if ctx['post'].explored:
+                k_exp = k + 1
+                break
+    finally:
+        eng.close()
+    out = []
+    if k_exp is None:
+        return dict(violations=out, label='3ways', scenario=scn_dict['name'], depth=0, final=None)
+    tail = 6
+    p_arg = [('step',)] * (k_exp + tail)
+    p_set = [('step',)] * k_exp + [('toggle',)] + [('step',)] * tail
+    p_res = [('step',)] * k_exp + [('resume',), ('toggle',)] + [('step',)] * tail
+    p_res2 = [('step',)] * k_exp + [('toggle',), ('step',), ('resume',)] + [('step',)] * (tail - 1)
+    o_arg, s_arg, k_arg, f_arg = _path_obs(arg, p_arg)
+    o_set, s_set, k_set, f_set = _path_obs(base, p_set)
+    o_res, s_res, k_res, f_res = _path_obs(base, p_res)
+    o_res2, s_res2, k_res2, f_res2 = _path_obs(base, p_res2)
+    ref = o_arg[k_exp - 1:]
+    cmp = [('setter-after-run', [o_set[k_exp - 1]] + o_set[k_exp + 1:], p_set),
+           ('setter-after-resume', [o_res[k_exp - 1]] + o_res[k_exp + 2:], p_res),
+           ('setter-step-resume', [o_res2[k_exp - 1]] + [o_res2[k_exp + 1]] + o_res2[k_exp + 3:],
+            p_res2)]
+    # before the toggle the non-discarding sampler legitimately shows the exploration samples
+    for label, got, path in cmp:
+        g = got[1:]
+        r = ref[1:len(g) + 1]
+        if g != r:
+            j = next((i for i in range(min(len(g), len(r))) if g[i] != r[i]), -1)
+            out.append(Violation('C12', 'threeways:' + label + (
+                ':raises' if any(isinstance(x, str) and x.startswith('EXC') for x in g) else ''),
+                'discard_exploration requested through run() and through "{}" give different '
+                'statistics {} batch(es) after exploration ended: {} vs {}'.format(
+                    label, j + 1, g[j] if j >= 0 else g, r[j] if j >= 0 else r),
+                dict(kind='threeways', scenario=scn_dict, label=label, path=path)))
+    if k_arg != k_set and not out:
+        out.append(Violation('C12', 'threeways:sampler-state', 'run(discard_exploration=True) and '
+                             'the setter reach different sampler states',
+                             dict(kind='threeways', scenario=scn_dict, label='state')))
+    if f_arg != f_set and not out:
+        out.append(Violation('C12', 'threeways:file-state', 'run(discard_exploration=True) and the '
+                             'setter leave different checkpoint contents after the next checkpoint '
+                             'operations', dict(kind='threeways', scenario=scn_dict, label='file')))
+    return dict(violations=out, label='3ways', scenario=scn_dict['name'], depth=k_exp + tail,
+                final=s_arg)
+
+
+def terminal_agreement(prop, scns, results):
+    out = []
+    for s, r in zip(scns, results):
+        for cls, obs in r['terminals'].items():
+            if len(obs) > 1:
+                items = sorted(obs.items(), key=lambda kv: len(kv[1]['path']))
+                (d0, a), (d1, b) = items[0], items[1]
+                out.append(Violation(
+                    prop, 'terminal:results-differ',
+                    'scenario {}: two histories of the same computation end with different results: '
+                    '{} via {} actions vs {} via {} actions ({} classes in total)'.format(
+                        s.name, a['summary'], len(a['path']), b['summary'], len(b['path']),
+                        len(obs)),
+                    dict(kind='terminal', scenario=dict(s), path=a['path'], path_b=b['path'])))
+    return out
+
+
+def extra_jobs(prop, tier, scns, results):
+    jobs = []
+    if prop == 'C11':
+        names = ['gauss', 'blob_float', 'wrap_net'] if tier == 'quick' else [
+            'gauss', 'blob_float', 'wrap_net', 'two', 'gauss_net', 'blob_two_obj', 'half']
+        for s in scenarios.get(names):
+            d = dict(s)
+            depth = 12 if tier == 'quick' else 60
+            jobs.append(('pair', d, dict(vectorized=False), dict(vectorized=True), 'scalar-vs-vectorized', depth))
+            jobs.append(('pair', d, dict(verbose=False), dict(verbose=True), 'verbose', depth))
+            jobs.append(('pair', d, dict(file=True), dict(file=False), 'file-vs-nofile', depth))
+            nb = 12
+            jobs.append(('pair', dict(d, n_batch=nb), dict(pool_l=0), dict(pool_l=2), 'pool-none-vs-2', depth))
+            jobs.append(('pair', dict(d, n_batch=nb), dict(pool_l=2), dict(pool_l=3), 'pool-2-vs-3', depth))
+            if tier == 'thorough':
+                jobs.append(('pair', dict(d, n_batch=nb), dict(pool_l=0), dict(pool_l=4), 'pool-none-vs-4', depth))
+        for s in scenarios.get(['gauss'] if tier == 'quick' else ['gauss', 'two', 'blob_float']):
+            for size in ((2,) if tier == 'quick' else (1, 2, 3)):
+                jobs.append(('mp', dict(s), size, 0))
+    if prop == 'C12':
+        for s in scns:
+            jobs.append(('threeways', dict(s)))
+    return jobs
+
+
 def _any_job(kind, *args):
     if kind == 'explore':
         return _job(*args)
+    if kind == 'pair':
+        return _pair_job(*args)
+    if kind == 'mp':
+        return _mp_job(*args)
+    if kind == 'threeways':
+        return _three_ways_job(*args)
     return _det_job(*args)
 
 
-def run(prop, tier, extra_terminal_check=None):
+def run(prop, tier):
     """generic driver: explorations of all scenarios in parallel, then the determinism proof on the
     default path of each (two fresh processes), then evidence."""
     timer = core.Timer()
@@ -88,7 +409,10 @@ def run(prop, tier, extra_terminal_check=None):
         depth = min(len(r['default_keys']) - 1, 12 if tier == 'quick' else 40)
         for variant in (0, 1):
             det_jobs.append(('det', dict(s), depth, variant))
-    det = core.pmap(_any_job, det_jobs)
+    xjobs = extra_jobs(prop, tier, scns, results)
+    allres = core.pmap(_any_job, det_jobs + xjobs)
+    det = allres[:len(det_jobs)]
+    xres = allres[len(det_jobs):]
     n_det = 0
     for i, (s, r) in enumerate(zip(scns, results)):
         a, b = det[2 * i], det[2 * i + 1]
@@ -107,8 +431,11 @@ def run(prop, tier, extra_terminal_check=None):
                 prop, 'exception:observation:{}:{}'.format(oe['type'], oe['site']),
                 'posterior()/log_z/n_eff of a finished sampler raised {}: {}'.format(
                     oe['type'], oe['msg']), dict(scenario=dict(s), path=oe['path'])))
-    if extra_terminal_check is not None:
-        violations.extend(extra_terminal_check(scns, results))
+    if prop in ('C05', 'C11', 'C12'):
+        violations.extend(terminal_agreement(prop, scns, results))
+    for x in xres:
+        violations.extend(x['violations'])
+    transitions_x = sum(x.get('depth', 0) for x in xres)
     states = sum(r['states'] for r in results)
     transitions = sum(r['transitions'] for r in results)
     capped = [(r['scenario'], r['capped']) for r in results if r['capped']]
@@ -119,7 +446,8 @@ def run(prop, tier, extra_terminal_check=None):
     cfg = CONFIGS[prop](tier)
     coverage = dict(
         states=states, transitions=transitions,
-        traces_validated_against_impl=transitions + n_det,
+        traces_validated_against_impl=transitions + n_det + len(xres),
+        product_runs=[dict(scenario=x['scenario'], label=x['label'], depth=x['depth']) for x in xres],
         samples=samples[:8],
         exhaustive=not capped,
         caps_hit=capped,
